@@ -614,12 +614,13 @@ def pitches_to_chord_symbol(pitches):
   # If the bass pitch class is not one of the scale degrees in the chosen kind,
   # we don't need to include an explicit modification for it.
   best_chord_degrees = _CHORD_KINDS_BY_ABBREV[best_abbrev]
+  bass_degrees = _SCALE_DEGREES[(bass - best_root) % 12]
   if all(degree != bass_degree
          for degree in best_chord_degrees
-         for bass_degree in _SCALE_DEGREES[bass]):
+         for bass_degree in bass_degrees):
     best_degrees = [degree for degree in best_degrees
                     if all(degree != bass_degree
-                           for bass_degree in _SCALE_DEGREES[bass])]
+                           for bass_degree in bass_degrees)]
   modifications_str = _degrees_to_modifications(
       best_chord_degrees, best_degrees)
 
